@@ -46,6 +46,13 @@ Lemma new_passes c e : filter_pass c SNew = true -> filter_pass c SNewIrr = true
   matches_new (estep e) = true -> passes c e = true.
 Proof. intros H1 H2 Hm. unfold passes. destruct (estep e); try discriminate; assumption. Qed.
 
+(* a filter that lets New through is not final-blocks-only: the stateless phases run *)
+Lemma pass_new_not_final c : filter_pass c SNew = true -> (j_filter c =? 1) = false.
+Proof.
+  unfold filter_pass. intros H. destruct (N.eqb_spec (j_filter c) 1) as [E|E]; [|reflexivity].
+  rewrite E in H. cbn in H. discriminate.
+Qed.
+
 Lemma c13_stop_num_proof : C13_stop_num.
 Proof.
   intros U c w ps merged_end merged forked Hwfb Hlok [[l [Hl Hhub]] Hrest] HS Hbound Hsorted Hmend Hmode HpN HpNI Hninv out0.
@@ -110,6 +117,7 @@ Proof.
     replace (j_stop c =? 0) with false by (symmetry; apply N.eqb_neq; exact HS).
     cbn [N.eqb negb andb].
     replace ((j_filter c =? 1) && false) with false by (symmetry; apply andb_false_r).
+    rewrite !(pass_new_not_final c HpN).
     change (live_try (with_stop c 0) (w_hub w) start) with (live_try c (w_hub w) start).
     destruct (live_try c (w_hub w) start) as [burst| | |].
     - apply live_sim.
